@@ -26,7 +26,7 @@ for d in sorted(glob.glob("/verif/seeded/*/")):
     what = meta.get("needs_to_manifest", "").replace("|", "/").replace("\n", " ")
     if len(what) > 230:
         what = what[:227] + "..."
-    rows.append("| %s | %s | %s | %s |" % (name, what, fmt(first), fmt(last)))
+    rows.append("| %s | %s | %s | %s |" % (name, what, meta.get("first_result") or fmt(first), fmt(last)))
 print("| change | what it breaks / needs to manifest | first run (quick tier) | after strengthening (quick tier) |")
 print("|--------|-----------------------------------|------------------------|----------------------------------|")
 print("\n".join(rows))
